@@ -115,6 +115,46 @@ class ScriptAnalysis(af.Analysis):
         return float(acc)
 
 
+class FakePaths:
+    """What Fitness.check_log_likelihood needs from the paths of a fit that is being resumed."""
+
+    class _Sample:
+        def __init__(self, parameters, log_likelihood):
+            self._parameters = parameters
+            self.log_likelihood = log_likelihood
+
+        def parameter_lists_for_model(self, model):
+            return self._parameters
+
+    class _Summary:
+        pass
+
+    def __init__(self, parameters, old):
+        self._summary = FakePaths._Summary()
+        self._summary.max_log_likelihood_sample = FakePaths._Sample(parameters, old)
+
+    def load_samples_summary(self):
+        return self._summary
+
+
+_CHECK_DIR = []
+
+
+def check_config_dir():
+    """A copy of harness/config/general.yaml with check_likelihood_function switched on (under VERIF_SCRATCH)."""
+    if not _CHECK_DIR:
+        import os
+        src = os.path.join(os.environ.get("VERIF_DIR", "/verif"), "harness", "config", "general.yaml")
+        d = os.path.join(os.environ["VERIF_SCRATCH"], "config_check")
+        os.makedirs(d, exist_ok=True)
+        text = open(src).read()
+        assert "check_likelihood_function: false" in text
+        with open(os.path.join(d, "general.yaml"), "w") as f:
+            f.write(text.replace("check_likelihood_function: false", "check_likelihood_function: true"))
+        _CHECK_DIR.append(d)
+    return _CHECK_DIR[0]
+
+
 def res_of(call):
     try:
         v = call()
@@ -145,7 +185,27 @@ def run_case(c):
         documented = dict(fom_is_log_likelihood=True, resample_figure_of_merit=-np.inf,
                           convert_to_chi_squared=False, store_history=False)
         kw = {k: v for k, v in kw.items() if v != documented[k]}
-    fitness = cls(model=root, analysis=analysis, **kw)
+    ctor = c.get("ctor")
+    ctor_raised = None
+    if ctor:
+        # a resumed fit: paths hold a samples summary whose best sample is buffer ctor["pbuf"]; the shipped
+        # default `check_likelihood_function: true` is switched on for this construction only
+        best = [unhex(x) for x in c["buffers"][ctor["pbuf"]]]
+        kw["paths"] = FakePaths(np.array(best) if nd else best, unhex(ctor["old"]))
+        saved = list(conf.instance.configs)
+        conf.instance.push(new_path=check_config_dir())
+        try:
+            fitness = cls(model=root, analysis=analysis, **kw)
+        except BaseException as e:  # noqa
+            ctor_raised = {"esc": exc_name(e), "msg": str(e)[:160]}
+        finally:
+            conf.instance.configs = saved
+        if ctor_raised:
+            return {"ctor_raised": ctor_raised, "out": [], "hist_p": [], "hist_l": [],
+                    "ids_ascending": all(a < b for a, b in zip(ids, ids[1:])), "ordered_is_creation": ordered == ids,
+                    "prior_count": root.prior_count, "lp": [], "sums": [], "lik_calls": analysis.calls}
+    else:
+        fitness = cls(model=root, analysis=analysis, **kw)
 
     def mkbuf(vals):
         vals = [unhex(x) for x in vals]
@@ -201,7 +261,7 @@ def run_case(c):
     hist_p = [[hexf(x) for x in list(p)] for p in fitness.parameters_history_list]
     hist_l = [scalar(x) for x in fitness.log_likelihood_history_list]
     return {
-        "out": out, "hist_p": hist_p, "hist_l": hist_l,
+        "ctor_raised": None, "out": out, "hist_p": hist_p, "hist_l": hist_l,
         "ids_ascending": all(a < b for a, b in zip(ids, ids[1:])),
         "ordered_is_creation": ordered == ids,
         "prior_count": root.prior_count,
